@@ -472,6 +472,22 @@ func keyFromRangeOver(key ssa.Value, m ssa.Value) bool {
 			}
 		}
 	})
+	// or the keys are slices.Sorted(maps.Keys(m)) of the same map
+	if !hasRange {
+		var src ssa.Value = ia.X
+		for i := 0; i < 3; i++ {
+			if ph, ok := src.(*ssa.Phi); ok && len(ph.Edges) > 0 {
+				src = ph.Edges[0]
+			}
+		}
+		if sc, ok := src.(*ssa.Call); ok && strings.HasPrefix(stdName(sc), "slices.Sorted") && len(sc.Common().Args) == 1 {
+			if kc, ok := sc.Common().Args[0].(*ssa.Call); ok && strings.HasPrefix(stdName(kc), "maps.Keys") && len(kc.Common().Args) == 1 {
+				if sameExpr(kc.Common().Args[0], m) {
+					hasRange = true
+				}
+			}
+		}
+	}
 	// or the keys come from a helper called on the same environment that ranges over its own store
 	if !hasRange {
 		var src ssa.Value = ia.X
